@@ -40,6 +40,11 @@ CLAIMS = {
   note="Interference modelled only at Lock (guarded state havocked + invariant assumed); channels carry no heap effect; callees lock-balanced; handlers called from Hub.Run assumed to touch only the monitor-protected tables; RemoveConnectionFromAllRooms is a trusted summary. Not decided: delivery/ordering through WritePump, close(send)-before-room-removal (send on closed channel), Connection.Close self-deadlock from hub handlers, shutdown. One genuine defect found and repaired: JoinRoom recorded membership although the room was full.",
   technique="contract-based deductive verification: monitor invariants on mutexes, guarded-by obligations, send preconditions, at-unlock assertions over go/ssa WP",
   design="§5 C16"),
+ "C15": dict(
+  text="Deductive proof for the JIT cache: after InvalidateCache(name) / ClearCache / RecordDeoptimization no compilation unit and no valid type specialization for the route remains (so the next request recompiles the current definition); a cache miss compiles exactly the route passed in and recompilation stores exactly the bytecode it returns (ghost bcsrc); GetSpecialization returns only valid specializations; the tier -> optimisation level table and the tier successor table are as declared; the per-route specialization limit is a monitor invariant of SpecializationCache.mutex; every read/write of units, of a unit's Bytecode/Tier/CompiledAt and of a specialization's IsValid happens with the owning mutex held (guarded-by).",
+  note="CompileRoute of pkg/compiler trusted to compile its argument; equality of behaviour across optimisation levels is C03, not re-proved here; profiler/trigger heuristics are contract-less. Two genuine defects found and repaired: invalidation left specializations valid (stale code served), and unit fields were read without unitsMux while recompileRoute wrote them (race confirmed with go test -race).",
+  technique="contract-based deductive verification: monitor invariants incl. fields of other objects guarded by a lock, ghost provenance of bytecode, WP over go/ssa",
+  design="§5 C15"),
 }
 
 def main():
